@@ -6,7 +6,7 @@ CONSTANTS
   MaxC = 2
   MaxRanks = 3
   MaxEins = 3
-  N = 800
+  N = 1500
   LemK = 1
   LemHi = 1
 INIT RandInit
